@@ -799,7 +799,11 @@ class FldExporter(Exporter):
         if self.input_values:
             values.append(engine.input_values)
         if self.output_values:
-            values.append(engine.output_values)
+            output_values = engine.output_values
+            if output_values.shape[0] == 1 and input_values.shape[0] > 1:
+                # no output depends on the inputs (eg, every input variable or rule block is disabled)
+                output_values = np.repeat(output_values, input_values.shape[0], axis=0)
+            values.append(output_values)
         if not values:
             values.append([])
 
